@@ -545,8 +545,14 @@ def process_fn(toks, it, fs: FnSpec, qual, ed: Edits, log, unit_in_trait_impl):
                         alts_txt = src[toks[comma].end:toks[close].pos]
                         alts = [" ".join(x.text for x in tokenize(a) if x.kind not in ("ws", "comment")) for a in alts_txt.split("|")]
                         alts = [a for a in alts if a]
+                        # `matches!(r, &C1 | &C2)` on a reference: compare the referent
+                        deref = bool(alts) and all(a.startswith("& ") for a in alts)
+                        if deref:
+                            alts = [a[2:] for a in alts]
                         if alts and all(a in cnames for a in alts):
                             e_txt = src[toks[n2].end:toks[comma].pos].strip()
+                            if deref:
+                                e_txt = "*(" + e_txt + ")"
                             cmap = {" ".join(t.text for t in tokenize(c[0]) if t.kind not in ("ws", "comment")):
                                     CONSTMOD + "::" + extconst_name(c[0]) + "()" for c in EXTCONSTS}
                             new = "({ let __vxm = " + e_txt + "; " + " || ".join(f"__vxm == {cmap[a]}" for a in alts) + " })"
@@ -668,11 +674,33 @@ def process_fn(toks, it, fs: FnSpec, qual, ed: Edits, log, unit_in_trait_impl):
                 continue
             if toks[sgi[ii + 4]].kind != "ident" or toks[sgi[ii + 5]].text != "|":
                 continue
+            # receiver: a postfix chain of identifiers, field accesses and calls (`self.families.get(family)`)
             jj = ii - 1
-            if jj < 0 or toks[sgi[jj]].kind != "ident":
+            ok_recv = True
+            while True:
+                if jj < 0:
+                    ok_recv = False; break
+                tj = toks[sgi[jj]]
+                if tj.kind == "punct" and tj.text == ")":
+                    depth = 0
+                    while jj >= 0:
+                        tx = toks[sgi[jj]].text
+                        if tx == ")": depth += 1
+                        elif tx == "(":
+                            depth -= 1
+                            if depth == 0: break
+                        jj -= 1
+                    jj -= 1          # the callee name before `(`
+                    if jj < 0 or toks[sgi[jj]].kind != "ident":
+                        ok_recv = False; break
+                elif tj.kind != "ident":
+                    ok_recv = False; break
+                if jj - 1 >= 0 and toks[sgi[jj - 1]].text == ".":
+                    jj -= 2
+                    continue
+                break
+            if not ok_recv:
                 continue
-            while jj - 2 >= 0 and toks[sgi[jj - 1]].text == "." and toks[sgi[jj - 2]].kind == "ident":
-                jj -= 2
             recv = src[toks[sgi[jj]].pos:toks[sgi[ii - 1]].end]
             open_paren = sgi[ii + 2]
             close_paren = match_close(toks, open_paren)
